@@ -68,6 +68,14 @@ Theorem C11_get_page_total : forall al ov wa s, wf s -> wa < U64 ->
 Proof. exact C11_get_page_total_proof. Qed.
 Print Assumptions C11_get_page_total.
 
+(* an allocation refused inside mem_get_page (slot table, Page, or the 128 KB words array): the call raises and the
+   object stays well-formed - no occupied slot, no cache entry is left pointing at a freed page; the same page can be
+   requested again (C11_get_page_total applies to s') *)
+Theorem C11_get_page_failure_wf : forall al ov wa s e s', wf s -> wa < U64 ->
+  mem_get_page al ov wa s = Ok (Raise e, s') -> wf s'.
+Proof. exact C11_get_page_failure_wf_proof. Qed.
+Print Assumptions C11_get_page_failure_wf.
+
 (* the last-ops ring: run allocates last_ops_length > 0 entries, every op writes at ring_writes % length
    (part of C11_no_oob_run), and build_run_result's start/total/modulo arithmetic reads inside the ring *)
 Theorem C11_ring_in_range : forall l, wf_loc l -> exists out, ring_readout l = Ok out.
